@@ -155,4 +155,8 @@ def parse_observable(data, _valid_refs=None, allow_custom=False, interoperabilit
             "use the CustomObservable decorator." % obj['type'],
         )
 
+    if not allow_custom and 'custom_properties' in obj:
+        # see dict_to_stix2()
+        raise ExtraPropertiesError(obj_class, ['custom_properties'])
+
     return obj_class(allow_custom=allow_custom, interoperability=interoperability, **obj)
